@@ -10,7 +10,7 @@ import jsonschema
 import pydantic
 
 import pjrpc
-from pjrpc.server import AsyncDispatcher, Dispatcher
+from pjrpc.server import AsyncDispatcher, Dispatcher, ViewMixin
 from pjrpc.server.validators import jsonschema as v_js
 from pjrpc.server.validators import pydantic as v_pd
 
@@ -138,8 +138,16 @@ def generate(seed, tier):
         params = as_params(rnd, sig, chosen, lambda n: pick_value(rnd, props.get(n)))
         if isinstance(params, list) and rnd.random() < 0.1:
             params = params + [rnd.choice(VALUES)]
-        cases.append({'t': 'schema', 'sig': sig, 'ctx': ctx, 'schema': top, 'params': params, 'async': rnd.random() < 0.5,
-                      'xs': xs, 'xmode': xmode})
+        c = {'t': 'schema', 'sig': sig, 'ctx': ctx, 'schema': top, 'params': params, 'async': rnd.random() < 0.5,
+             'xs': xs, 'xmode': xmode}
+        r = rnd.random()
+        if r < 0.2:
+            # ONE validator shared by two methods: the schema is the validator-level default, the sibling method brings its own
+            # and is served first
+            c['shared'] = True
+        elif r < 0.4 and not ctx:
+            c['view'] = True          # a method of a class-based view; the predicate (if any) would also select `self`
+        cases.append(c)
     n_typed = 1800 if tier == 'quick' else 16000
     for _ in range(n_typed):
         sig = rnd.choice(all_sigs)
@@ -149,8 +157,11 @@ def generate(seed, tier):
         chosen = choose_names(rnd, sig, [], xs)
         params = as_params(rnd, sig, chosen,
                            lambda n: rnd.choice(GOOD[anns[n]]) if (n in anns and rnd.random() < 0.8) else rnd.choice(PVALUES))
-        cases.append({'t': 'typed', 'sig': sig, 'ctx': rnd.choice([None, None, 'ctx']), 'anns': anns, 'params': params,
-                      'coerce': rnd.random() < 0.6, 'async': rnd.random() < 0.5, 'xs': xs, 'xmode': xmode})
+        c = {'t': 'typed', 'sig': sig, 'ctx': rnd.choice([None, None, 'ctx']), 'anns': anns, 'params': params,
+             'coerce': rnd.random() < 0.6, 'async': rnd.random() < 0.5, 'xs': xs, 'xmode': xmode}
+        if not c['ctx'] and rnd.random() < 0.2:
+            c['view'] = True
+        cases.append(c)
     return cases
 
 
@@ -187,6 +198,9 @@ INJ = Inject('<default>')
 
 def predicate(case):
     xs = tuple(case.get('xs') or ())
+    if case.get('view') and case.get('xmode') != 'default':
+        # "everything called self is injected too": harmless, the bound instance is never a JSON-RPC parameter
+        return lambda name, annotation, default: name == 'self' or name in xs
     if not xs:
         return None
     if case.get('xmode') == 'default':
@@ -209,16 +223,29 @@ def make_function(case, is_async, log, annotations=None):
     for n, a in (annotations or {}).items():
         ns['ANN_' + n] = ANNS[a]
     body = '[' + ', '.join('[%r, render(%s)]' % (n, n) for n, _, _ in sig) + ']'
+    if case.get('view'):
+        parts = ['self'] + parts
     exec('%sdef f(%s):\n    LOG.append(1)\n    return %s\n' % ('async ' if is_async else '', ', '.join(parts), body), ns)
     return ns['f']
 
 
-def dispatch(case, f, is_async):
+G_SCHEMA = {'type': 'object', 'properties': {'gx': {'type': 'string'}}, 'required': ['gx'], 'additionalProperties': False}
+
+
+def dispatch(case, f, is_async, sibling=None):
     d = (AsyncDispatcher if is_async else Dispatcher)()
-    if case['ctx']:
+    if case.get('view'):
+        V = type('V', (ViewMixin,), {'f': f})
+        d.view(V)
+    elif case['ctx']:
         d.add(f, context=case['ctx'])
     else:
         d.add(f)
+    if sibling is not None:
+        d.add(sibling)
+        t0 = json.dumps({'jsonrpc': '2.0', 'id': 0, 'method': 'g', 'params': {'gx': 's'}})
+        r0 = dispenv.loop().run_until_complete(d.dispatch(t0, context='CTX')) if is_async else d.dispatch(t0, context='CTX')
+        assert json.loads(r0[0]).get('result') == 'g', r0
     text = json.dumps({'jsonrpc': '2.0', 'id': 1, 'method': 'f', 'params': case['params']})
     r = dispenv.loop().run_until_complete(d.dispatch(text, context='CTX')) if is_async else d.dispatch(text, context='CTX')
     try:
@@ -252,9 +279,17 @@ def independent_bind(case):
 def observe(case):
     log = []
     if case['t'] == 'schema':
-        v = v_js.JsonSchemaValidator(exclude_param=predicate(case))
-        f = v.validate(make_function(case, case['async'], log), schema=case['schema'])
-        obs = dispatch(case, f, case['async'])
+        if case.get('shared'):
+            v = v_js.JsonSchemaValidator(exclude_param=predicate(case), schema=case['schema'])
+            f = v.validate(make_function(case, case['async'], log))
+            ns = {}
+            exec('%sdef g(gx):\n    return "g"\n' % ('async ' if case['async'] else ''), ns)
+            g = v.validate(ns['g'], schema=G_SCHEMA)
+            obs = dispatch(case, f, case['async'], sibling=g)
+        else:
+            v = v_js.JsonSchemaValidator(exclude_param=predicate(case))
+            f = v.validate(make_function(case, case['async'], log), schema=case['schema'])
+            obs = dispatch(case, f, case['async'])
         bound = independent_bind(case)
         if bound is None:
             js = None
@@ -311,7 +346,7 @@ def cpp(p):
 
 def encode(case, obs):
     sig = full_sig(case)
-    cm = '(CtxByName %s)' % cstr(case['ctx']) if case['ctx'] else 'CtxNone'
+    cm = '(CtxByName %s)' % cstr(case['ctx']) if case['ctx'] else ('(CtxView false)' if case.get('view') else 'CtxNone')
     xs = clist(cstr(n) for n in (case.get('xs') or ()))
     if case['t'] == 'schema':
         return ('(C14.CSchema %s %s %s %s %s %s %s %s)'
